@@ -1772,7 +1772,10 @@ func (n *node) unregisterProcess(p *process, reason error) {
 
 	// drop the links and monitors this process created: a terminated process
 	// must not stay in any relation as a consumer
-	n.targetManager.CleanupConsumer(p.pid)
+	linkTargets, monitorTargets := n.targetManager.CleanupConsumer(p.pid)
+	// and it does not count as a subscriber of the local events any longer
+	n.releaseEventConsumer(linkTargets)
+	n.releaseEventConsumer(monitorTargets)
 
 	if p.application != system.Name {
 		// do not count system app processes
@@ -1825,6 +1828,35 @@ func (n *node) unregisterProcess(p *process, reason error) {
 		// this process was a member of the application
 		app := v.(*application)
 		app.terminate(p.pid, reason)
+	}
+}
+
+// releaseEventConsumer is the counterpart of the subscriber accounting in
+// RouteUnlinkEvent/RouteDemonitorEvent for a subscriber that terminated
+// without unsubscribing: the producer of an event with enabled notifications
+// is told when its last subscriber is gone.
+func (n *node) releaseEventConsumer(targets []any) {
+	for _, target := range targets {
+		ev, ok := target.(gen.Event)
+		if ok == false || ev.Node != n.name {
+			continue
+		}
+		value, exist := n.events.Load(ev)
+		if exist == false {
+			continue
+		}
+		event := value.(*eventOwner)
+		c := atomic.AddInt32(&event.consumers, -1)
+		if event.notify == false || c > 0 {
+			continue
+		}
+		options := gen.MessageOptions{
+			Priority: gen.MessagePriorityHigh,
+		}
+		message := gen.MessageEventStop{
+			Name: ev.Name,
+		}
+		n.RouteSendPID(n.corePID, event.producer, options, message)
 	}
 }
 
